@@ -147,3 +147,15 @@ CHECKS["C15"] = hist_check("C15",
     "an unbound heap allocated while a live block existed in an exclusive arena, or a bound heap returned NULL after a capacity probe. Distinct = hash of the IR text.",
     [R("rel", 6000, 100000, 2.0), R("dbg", 2500, 30000, 1.0)],
     assumptions=["requests of more than one arena block are only asserted to lie inside the arena, not to succeed"])
+
+CHECKS["C17"] = hist_check("C17",
+    "cases = a normal history with injected misuses at generated positions (error callback registered, nothing aborts): (a) second free of a thread-local block whose "
+    "area keeps another live block, with 0-8 allocations of another class in between; (b) one byte v in 1..255 (not 0xDE) written at offset = requested size of an "
+    "unmodified, unaligned block <= 1 MiB, then freed locally or by a helper thread; (c) the first word of a freed block (freed locally or remotely) XOR-ed with a generated "
+    "non-zero 64-bit value, then the class is allocated until the block comes back. Oracle: (a) exactly one EAGAIN during the second free and none before; (b) EFAULT during "
+    "the free; (c) EFAULT no later than the allocation returning the block; no other error code; secure build: afterwards 1-2x page-capacity allocations of that class never "
+    "return an address twice, never overlap a live block, always lie inside the heap regions, and the history continues under the C01 oracle; debug build: the case stops "
+    "after the detection. Non-trivial = at least one misuse was injected and detected with >= 8 blocks live. Distinct = hash of the IR text.",
+    [R("sec", 12000, 200000, 1.0), R("dbg", 5000, 60000, 1.0)],
+    assumptions=["a forged link that decodes into the same page (probability about 2^-47 per case) would be followed by design; not classified white-box, treated as undetected if it ever happened",
+                 "blocks whose requested size changed (in-place realloc/expand), aligned or zero-chain blocks are not used for the overflow misuse: their canary does not sit at the requested size"])
